@@ -303,6 +303,91 @@ def pairs_rule(rep, prog, cfg):
                   "%s has no error path for unexpected/missing fields" % short)
 
 
+def key_guard_rule(rep, prog, cfg):
+    """`unexpected_field(expected = X, found)` is the error for a field that is NOT X: in every decoder the call must lie on the
+    unequal edge of the comparison of the key with X.  On the equal edge it rejects exactly the well-formed reply and accepts
+    everything else (a contradiction between the test and the error it raises, whatever the surrounding idiom)."""
+    rule = "C16.pairs"
+    UNEXP = "mpd_client::responses::TypedResponseError::unexpected_field"
+    n = 0
+    for b in prog.bodies.values():
+        if b.crate != "mpd_client" or b.raw.get("derived"):
+            continue
+        cs = [c for c in tables.str_compares(b) if c["true"] is not None and c["false"] is not None]
+        if not cs:
+            continue
+        calls = [(bb, t) for bb, t in b.calls() if UNEXP in callee_names(t) and t["args"]]
+        if not calls:
+            continue
+        rn = norm(prog.bodies.get(b.root, b).name)
+        from ..cfg import Cfg
+        g = Cfg(b)
+        for c in cs:
+            for bb, t in calls:
+                exp = tables.arg_str(b, t["args"][0])
+                # the error reports the key that was found (not a second literal: those are "X twice" errors of group decoders)
+                if exp != c["lit"] or len(t["args"]) < 2 or tables.arg_str(b, t["args"][1]) is not None:
+                    continue
+                on_eq, on_ne = g.dom(c["true"], bb), g.dom(c["false"], bb)
+                if on_eq != on_ne:
+                    n += 1
+                    rep.check(on_ne, rule, "%s/%s: 'expected %s' raised when the key differs" % (cfg, rn, exp), b.loc(b.blocks[bb]["ts"]),
+                              "%s raises unexpected_field(expected %r) on the edge where the key EQUALS %r: the well-formed reply is rejected and any other "
+                              "field name is accepted" % (rn, exp, exp))
+    rep.floor(rule, cfg + "/key guards with an expected-field error", n, 8)
+
+
+def carried_state_rule(rep, prog, cfg):
+    """Pair / group decoders carry "the first half seen so far" in an Option across loop turns.  State that is set inside the
+    loop must also be emptied inside it (Option::take, mem::take / replace, `= None`): if it is only ever copied out, the decoder
+    stays in "second half expected" for ever and rejects (or mis-pairs) every reply with more than one pair."""
+    rule = "C16.lossless-iter"
+    from ..cfg import Cfg
+
+    def some_temp(b, l):
+        d = [st for _, _, st in b.stmts() if st["k"] == "assign" and st["place"]["l"] == l and not st["place"]["p"]]
+        return len(d) == 1 and d[0]["rv"]["k"] == "agg" and d[0]["rv"].get("variant") == "Some"
+    n = 0
+    for b in prog.bodies.values():
+        if b.crate != "mpd_client" or b.raw.get("derived"):
+            continue
+        rn = norm(prog.bodies.get(b.root, b).name)
+        if not (rn.startswith("mpd_client::responses::") or rn.endswith("as mpd_client::commands::Command>::response")):
+            continue
+        g = Cfg(b)
+        if not g.loops:
+            continue
+        L = set().union(*g.loops)
+        carriers = set()
+        for bb, i, st in b.stmts():
+            if bb in L and st["k"] == "assign" and not st["place"]["p"] and b.local_name(st["place"]["l"]) and "Option<" in b.local_ty(st["place"]["l"]):
+                rv = st["rv"]
+                if (rv["k"] == "agg" and rv.get("variant") == "Some") or (rv["k"] == "use" and op_local(rv["op"]) is not None and some_temp(b, op_local(rv["op"]))):
+                    carriers.add(st["place"]["l"])
+        for l in sorted(carriers):
+            emptied = False
+            for bb, t in b.calls():
+                if bb in L and t["args"] and any(x.rsplit("::", 1)[-1] in ("take", "replace") for x in callee_names(t)):
+                    a = op_local(t["args"][0])
+                    for _, _, s2 in b.stmts():
+                        if s2["k"] == "assign" and s2["place"]["l"] == a and s2["rv"]["k"] == "ref" and s2["rv"]["mut"] and s2["rv"]["place"]["l"] == l \
+                                and not s2["rv"]["place"]["p"]:
+                            emptied = True
+            for bb, i, st in b.stmts():
+                if bb in L and st["k"] == "assign" and st["place"]["l"] == l and not st["place"]["p"]:
+                    rv = st["rv"]
+                    if rv["k"] == "agg" and rv.get("variant") == "None":
+                        emptied = True
+                if bb in L and st["k"] == "assign" and st["rv"]["k"] == "use" and "move" in st["rv"]["op"] and st["rv"]["op"]["move"]["l"] == l \
+                        and not st["rv"]["op"]["move"]["p"]:
+                    emptied = True      # moved out whole: the compiler forces a re-initialisation before the next use
+            n += 1
+            rep.check(emptied, rule, "%s/%s: carried state `%s` is emptied in the loop" % (cfg, rn, b.local_name(l)), b.loc(b.span),
+                      "%s sets `%s` to Some(..) inside its decoding loop but never takes it out / resets it there (no Option::take, mem::take, "
+                      "`= None`): after the first pair the decoder never returns to the 'first half expected' state" % (rn, b.local_name(l)))
+    rep.floor(rule, cfg + "/loop-carried Option state in decoders", n, 3)
+
+
 def sticker_rule(rep, prog, cfg):
     rule = "C16.sticker"
     bs = body_by_name(prog, "mpd_client::responses::sticker::parse_sticker_value")
@@ -564,6 +649,8 @@ def run(rep, progs, tier):
                       "; ".join(m for _, m in r[0]), detail={"named_tags": r[1]})
         enums_rule(rep, prog, cfg)
         pairs_rule(rep, prog, cfg)
+        key_guard_rule(rep, prog, cfg)
+        carried_state_rule(rep, prog, cfg)
         sticker_rule(rep, prog, cfg)
         errors_rule(rep, prog, cfg)
         lossless_iter_rule(rep, prog, cfg)
